@@ -27,7 +27,7 @@ META = {
                   "carry the witnesses (nbThreads = 2, two truncated-frame clients, one good client: the running server is quiescent with the good request unserved; "
                   "one client that never finishes authentication blocks the pool's accept loop).",
     "level_note": "Not in the model, harness only: reuse of a departed client's descriptor number by a newcomer while the hook still runs (hookhold), a client on "
-                  "descriptor 0 (connect0), failure to start the worker for an accepted client (nospawn), two connections set up at once (twin), a class shown by two "
+                  "descriptor 0 (connect0), two connections set up at once (twin), a class shown by two "
                   "clients under one name (classref), clients that reset before accept (knock). A complete message that makes the server wait for its sender (a nested request never answered, a reply never read) is the model's NStall: it "
                   "blocks a reader exactly like an unfinished frame (generated: 'stall'; the never-read flavour is the same class and is not generated). Descriptor exhaustion "
                   "enters as the event EAcceptFail. Partial: threads, processes, fork, poll and the kernel's accept queue appear only through their effect on the bookkeeping; descriptor exhaustion is outside. "
@@ -46,7 +46,7 @@ META = {
     "model_files": ["Server"],
     "assumptions": [
         "object ids are not reused while the harness keeps the service instances and their objects alive",
-        "memory exhaustion and thread-creation failure (spawn, os.fork) are outside the model; descriptor exhaustion is the event EAcceptFail",
+        "memory exhaustion is outside the model; descriptor exhaustion is the event EAcceptFail, failure to start the thread / child process for an accepted client the event ESpawnFail (harness op nospawn: rpyc.utils.server.spawn raises once; compared with the model state by state on the threaded server)",
         "the toy authenticator stands for any authenticator that reads from the socket before deciding",
     ],
 }
